@@ -64,7 +64,22 @@ fn main() {
     let stdin_null = std::fs::read_link("/proc/self/fd/0")
         .map(|p| p.as_os_str() == "/dev/null")
         .unwrap_or(false);
-    hello.push_str(if stdin_null { " STDIN0\n" } else { " STDINX\n" });
+    hello.push_str(if stdin_null { " STDIN0" } else { " STDINX" });
+    // the environment as received (names and values), except the simulation's own variables: the only
+    // other channel besides argv, cwd and stdin through which anything could influence this child
+    let mut env: Vec<(Vec<u8>, Vec<u8>)> = std::env::vars_os()
+        .map(|(k, v)| (k.into_vec(), v.into_vec()))
+        .filter(|(k, _)| !k.starts_with(b"MONORAIL_VERIF_") && !k.starts_with(b"FSFAULT_") && k != b"LD_PRELOAD")
+        .collect();
+    env.sort();
+    let mut blob = Vec::new();
+    for (k, v) in &env {
+        blob.extend_from_slice(k);
+        blob.push(b'=');
+        blob.extend_from_slice(v);
+        blob.push(0);
+    }
+    hello.push_str(&format!(" ENV {}\n", hex(&blob)));
     if sock.write_all(hello.as_bytes()).is_err() {
         std::process::exit(97);
     }
@@ -112,6 +127,24 @@ fn main() {
                 }
                 std::thread::sleep(std::time::Duration::from_secs(5));
                 std::process::exit(99);
+            }
+            Some("FORKHOLD") => {
+                // leave a background process behind that keeps stdout and stderr open for <ms> and then exits
+                let ms: u64 = it.next().and_then(|x| x.parse().ok()).unwrap_or(1000);
+                let pid = unsafe { libc::fork() };
+                if pid == 0 {
+                    drop(rd);
+                    unsafe {
+                        libc::close(std::os::unix::io::AsRawFd::as_raw_fd(&sock));
+                    }
+                    std::thread::sleep(std::time::Duration::from_millis(ms));
+                    unsafe { libc::_exit(0) };
+                }
+                if pid > 0 {
+                    "ACK 0\n".to_string()
+                } else {
+                    "ERR 11\n".to_string()
+                }
             }
             Some("RUN") => {
                 // run a nested command (hex argv) to completion with this process's environment and
